@@ -11,6 +11,8 @@ every model at once:
   TMP-1, TMP-2, TMP-4, TRUST-SIG   (python.BasicBlock; shared with C08)
 Not decided: that cse / simplify / lambdify preserve value (trusted base); floating-point accuracy.
 """
+import ast
+
 from .. import core, scenarios, tmprules
 from ..values import *  # noqa
 
@@ -71,5 +73,29 @@ def run(ctx: core.Ctx) -> int:
         ctx.note(f"undecided: {u}")
     py = it.p.modules["python"]
     tmprules.check_python_block(ctx, py)
+    # compiling is a function of the definition alone: no module-level caches (a cached block compiled for another argument layout
+    # binds inputs to the wrong symbols), and the user's expressions are not rewritten on the way to BasicBlock
+    from . import c15 as _c15
+    ctx.rule("PY-PURE", "python.py / common.py keep no module-level mutable state written by functions")
+    _c15.gen_pure(ctx, {"python": F, "common": "py/formak/common.py"}, rule="PY-PURE", floor=40)
+    ctx.rule("PY-NO-REWRITE", "the Python back-end passes the user's expressions to cse/simplify/lambdify unrewritten (no subs / xreplace / rewrite / symbol re-creation)")
+    rewrites = []
+    for c in ast.walk(py):
+        if isinstance(c, ast.Call) and isinstance(c.func, ast.Attribute) and c.func.attr in ("subs", "xreplace", "replace", "rewrite", "doit", "expand", "evalf") \
+                and not (isinstance(c.func.value, ast.Constant)) and "str" not in ast.unparse(c.func.value)[:4]:
+            if c.func.attr == "replace" and (not c.args or isinstance(c.args[0], ast.Constant)):
+                continue        # str.replace
+            rewrites.append(c)
+    pos = ast.parse("e = symbolic_model.state_model[a].subs(symbolic_model.dt, Symbol('dt', positive=True))")
+    fired = any(isinstance(c, ast.Call) and isinstance(c.func, ast.Attribute) and c.func.attr == "subs" for c in ast.walk(pos))
+    if not fired:
+        ctx.error("PY-NO-REWRITE: built-in positive example not recognised")
+    ctx.floors["PY-NO-REWRITE"] = {"count": 1, "floor": 1, "what": "built-in positive example recognised; expected count in python.py is zero"}
+    ctx.oblige("PY-NO-REWRITE", F, f"{len(rewrites)} expression-rewriting call(s) in python.py", not rewrites, file=F, func="<module>",
+               construct="rewrites:" + ";".join(sorted(ast.unparse(c.func)[-40:] for c in rewrites)),
+               msg="the Python back-end rewrites the user's expressions before compiling them: "
+                   + "; ".join(f"`{ast.unparse(c)[:70]}` (line {c.lineno})" for c in rewrites)
+                   + " -- e.g. substituting a symbol that carries assumptions changes what Abs / sqrt / sign evaluate to",
+               line=rewrites[0].lineno if rewrites else None)
     return core.finish(ctx, explanation="E2 layout interpretation of python.Model + symbolic evaluation of python.BasicBlock "
                                         "against the temporaries protocol", **META)
